@@ -163,10 +163,10 @@ class C07(Prop):
                 nu = 1
             else:
                 eng.oblige('one-square-root-per-step', len(calls) == 1)
-                arg, r = calls[-1]
+                arg, r = calls[-1][0], calls[-1][1]
                 if eng.abs_log:
                     # cheap decisive identities first
-                    inner, outer = eng.abs_log[-1]
+                    inner, outer = eng.abs_log[-1][0], eng.abs_log[-1][1]
                     eng.oblige_eq('sqrt-argument-is-kl/|sum<V,D>*lr^2|', inner, s)
                     eng.oblige_eq('sqrt-argument-composition', arg, kl / outer)
                 else:
